@@ -15,6 +15,8 @@ fn main() {
         ("2x1 write/write same nonce", vec![vec![w(true, 7, 5)], vec![w(true, 7, 5)]]),
         ("2x1 write/read same object", vec![vec![w(true, 1, 5)], vec![r(true, 2, 6)]]),
         ("2x1 read/read different nonces", vec![vec![r(false, 1, 5)], vec![r(false, 2, 9)]]),
+        ("2x1 read/read into exactly payload-sized buffers", vec![vec![Call::ReadTight { init: false, nonce: 1, plen: 5 }], vec![Call::ReadTight { init: false, nonce: 2, plen: 9 }]]),
+        ("2x1 tight read/rejected tight read", vec![vec![Call::ReadTight { init: false, nonce: 1, plen: 5 }], vec![Call::ReadTight { init: false, nonce: u64::MAX, plen: 9 }]]),
         ("2x1 read/rejected read", vec![vec![r(false, 1, 5)], vec![r(false, 3, 5), r(false, u64::MAX, 5)]]),
     ];
     let ciphers: Vec<(&'static str, bool)> = if tier == "thorough" { vec![("ChaChaPoly", false), ("AESGCM", false), ("XChaChaPoly", false), ("ChaChaPoly", true), ("AESGCM", true)] } else { vec![("ChaChaPoly", false), ("AESGCM", true)] };
